@@ -9,6 +9,10 @@ require (
 	github.com/qiniu/x v1.15.0
 )
 
-require golang.org/x/mod v0.20.0 // indirect
+require (
+	github.com/fsnotify/fsnotify v1.9.0 // indirect
+	golang.org/x/mod v0.20.0 // indirect
+	golang.org/x/sys v0.21.0 // indirect
+)
 
 replace github.com/goplus/xgo => /repo
